@@ -418,6 +418,40 @@ def make_repo(chk):
     return r
 
 
+def make_repo_odd(chk):
+    """a repository whose PATH contains a single quote, a backslash and a blank: the EBUILD= value of
+    every size-prefixed gen_metadata / gen_ebuild_env payload is then $'..\\'..\\\\..' quoted, i.e. the payload
+    has backslashes.  (No eclasses: an eclass PATH with a backslash is mangled by the daemon's
+    line reads, which is value fidelity, not framing.)"""
+    from pkgcore.pytest.plugin import EbuildRepo
+    path = str(chk.scratch / "od'd \\re\\po")
+    r = EbuildRepo(path, repo_id="odd")
+    r.create_ebuild("cat/b-1", data="")
+    r.sync()
+    return r
+
+
+# size-prefixed payloads (set_metadata_path N / start_receiving_env bytes N): fixed corpus, run first
+PAYLOAD_CORPUS = [
+    ("path", ["/a\\b"]), ("env", {"A": "it's"}), ("path", ["/x'y", "/sp ace"]), ("env", {"A": "back\\slash"}),
+    ("path", ["/end\\"]), ("env", {"Q": "q'\\'", "B": "plain"}), ("path", ["\\"]), ("env", {"N": "nl\nx\\\ny"}),
+    ("path", ["/nl\nq\\", "/z"]), ("env", {"L": ["a'b", "c\\d", "e f"]}), ("env", {"U": "ü'\\ü"}),
+    ("path", ["/\\\\\\"]), ("env", {"E": "\\"}), ("env", {"T": "tail\\", "Z": "z"}),
+]
+
+
+def payload_random(rng, n):
+    toks = ["a", "\\", "'", " ", "\n", "\\\\", "$x", "\"", "ü", "/p", "\t", "`"]
+    out = []
+    for _ in range(n):
+        val = "".join(rng.choice(toks) for _ in range(rng.randint(1, 6)))
+        if rng.random() < 0.5:
+            out.append(("path", ["/" + val.replace(":", "_")] + (["/t"] if rng.random() < 0.3 else [])))
+        else:
+            out.append(("env", {"V": val} if rng.random() < 0.7 else {"V": [val, "w" + val]}))
+    return out
+
+
 class FakePkgs:
     """package objects for get_keys without asking the repo (which would regenerate metadata through
     its own pooled processors)"""
@@ -436,7 +470,7 @@ def real_sessions(chk, P):
     ec = repo.eclass_cache
     pkg = lambda n: repo._repo.package_class("cat", n, "1")  # noqa: E731
     out = []
-    names = ["main", "die", "unknown-eclass", "unknown-command", "phase-fails", "signal-t", "signal-i"]
+    names = ["main", "payload", "die", "unknown-eclass", "unknown-command", "phase-fails", "signal-t", "signal-i"]
     if chk.thorough or chk.fingerprint_changed:
         names += ["phase-fails-logging", "preload-failed", "env-failure"]
     import threading
@@ -563,7 +597,20 @@ def real_sessions(chk, P):
             preload_failed(s)
             env_failure(s)
             keys(s, "b")
-            pings_with_outstanding(s)
+            odd = make_repo_odd(chk)
+            oddpkg = odd._repo.package_class("cat", "b", "1")
+            for code, fn in (("k0", lambda: s.ebp.get_keys(oddpkg, odd.eclass_cache)),
+                             ("e0", lambda: s.ebp.get_ebuild_environment(oddpkg, odd.eclass_cache))):
+                v = s.op(code, fn, truth=lambda v: True)
+                if isinstance(v, Err) or (code == "k0" and v.get("SLOT") != "0"):
+                    s.oracle.append({"what": "metadata request whose size-prefixed payload contains backslashes (ebuild "
+                                             "path %r) did not complete: %r" % (oddpkg.ebuild.path, v), "session": "main",
+                                     "last_lines": [f"{k} {t[:80]}" for k, t in s.rec.recs[-8:]]})
+                    break
+            if s.ebp.pid and s.last != "timeout":
+                s.alive_probe("a metadata payload with backslashes")
+            if s.ebp.pid:
+                pings_with_outstanding(s)
     finally:
         s.stop()
 
@@ -582,6 +629,45 @@ def real_sessions(chk, P):
             s.op("s", lambda: s.ebp.shutdown_processor(), truth=lambda v: True)
         finally:
             s.stop()
+
+    # 2b. size-prefixed payloads on ONE long-lived daemon: the n bytes announced are the n bytes consumed,
+    #     whatever they contain (backslashes, quotes, newlines, non-ASCII): each request then gets its own
+    #     reply and the request after it is read from its first byte
+    s = session("payload")
+    try:
+        steps = PAYLOAD_CORPUS + payload_random(chk.rng, chk.n(8, 60))
+        for kind, val in steps:
+            if not s.ebp.pid:
+                break
+            if kind == "path":
+                def do(val=val):
+                    s.ebp._metadata_paths = None
+                    s.ebp._ensure_metadata_paths(tuple(val))
+                    return s.ebp._metadata_paths == tuple(val)
+            else:
+                def do(val=val):
+                    s.ebp.write("process_ebuild verif_payload")
+                    ok = s.ebp.send_env(dict(val))
+                    s.ebp.write("shutdown_daemon")            # leaves the phase loop: the main loop reports the phase
+                    return ok and s.ebp.read().strip() == "phases succeeded"
+            v = s.op("z", do)
+            chk.count("payload")
+            chk.nontrivial(("payload", kind, repr(val)))
+            bad = v is not True
+            if not bad and s.ebp.pid:
+                n0 = len(s.oracle)
+                s.alive_probe("a size-prefixed payload (%s %r)" % (kind, val))
+                bad = len(s.oracle) > n0
+            if bad:
+                s.oracle.append({"what": "a size-prefixed payload is not consumed as exactly the announced bytes: the request "
+                                         "with it got %r (blocked pair / wrong reply) or the next request was not read from "
+                                         "its first byte" % (v,), "payload_kind": kind, "payload": val, "session": "payload",
+                                 "last_lines": [f"{k} {t[:80]}" for k, t in s.rec.recs[-8:]]})
+                break
+        if s.ebp.pid:
+            s.op("s", lambda: s.ebp.shutdown_processor(), truth=lambda v: True)
+    finally:
+        s.stop()
 
     # 3. die at global scope
     s = session("die")
@@ -1010,6 +1096,10 @@ def main(chk: Check):
         chk.count("bash-function", 3)
     timing["scripted+bash-join"] = round(time.time() - t1 - timing["sessions"], 1)
     for name, s in sessions:
+        if name == "payload":        # judged directly (its steps are not operations of the python model)
+            oracle.extend(s.oracle)
+            chk.cov.setdefault("sessions_unmodelled", {})[name] = len(s.rec.recs)
+            continue
         tr = s.rec.encode()
         cases.append((cstr(tr), True))
         names.append(name)
@@ -1027,7 +1117,7 @@ def main(chk: Check):
         names_neg = ["scripted-unknown-request"]
     else:
         names_neg = []
-    for (name, s) in sessions[:3]:
+    for (name, s) in [x for x in sessions if x[0] != "payload"][:3]:
         for kind, m in mutate(s.rec.encode(), chk.rng):
             neg.append((cstr(m), False))
             names_neg.append(f"{name}/{kind}")
